@@ -160,7 +160,10 @@ func genExts(r *Rand, kind int, maxElems int) (uint16, []ExtIn) {
 		}
 		return 0x1000, es
 	case profLegacy:
-		prof := uint16(r.Pick(0, 1, 0x1234, 0xBEDF, 0x1001, 0xFFFF, r.Intn(65536)))
+		// 0x1001–0x100F (two-byte profiles with appbits under RFC 8285, legacy to the library) are
+		// outside the quantifier of C01/C04/C05/C20 (wf = false, correspondence only): drawn rarely,
+		// through r.Intn(65536) only
+		prof := uint16(r.Pick(0, 1, 0x1234, 0xBEDF, 0x0FFF, 0x1010, 0xFFFF, r.Intn(65536)))
 		if prof == 0xBEDE || prof == 0x1000 {
 			prof = 0x1234
 		}
